@@ -4,6 +4,7 @@ Model: InToto/Model/Verify.lean (`verifyAux` recursion through `Dir.sub`).
 (Interim: unbounded theorems in preparation.)
 -/
 import InToto.Model.Verify
+import InToto.Generated.Facts
 
 namespace InToto.C08
 open InToto InToto.Verify
@@ -19,5 +20,8 @@ theorem missing_subdir_is_empty (d : Dir) (n : Str) (h : lookup n d.subs = none)
 /-- recursion is bounded by the nesting depth of the link directory -/
 theorem depth_positive (d : Dir) : 0 < d.depth := by
   cases d; simp [Dir.depth]; omega
+
+/-- fact regenerated from the source on every run: the sublayout directory format -/
+theorem facts_sublayout_dir_format : Generated.constSublayoutLinkDirFormat = lit% "%s.%.8s" := by decide
 
 end InToto.C08
